@@ -14,7 +14,7 @@ from upx import Ctx, ExprGen, enc_expr
 ID = "C13"
 GEN = []
 CORR_NAME = "substitute-output"
-RULE = ("one case = (expression, ordered map of (key, value, verdict of key.type.is_compatible(value.type) on the real types)). "
+RULE = ("4 of 5 cases are single calls on a fresh environment, every 5th is a HISTORY (see the end). One single case = (expression, ordered map of (key, value, verdict of key.type.is_compatible(value.type) on the real types)). "
         "Expressions: 55% from the shared typed grammar (upx.ExprGen: connectives with nested same-operator nodes, raw double "
         "negations, arithmetic with huge constants, comparisons, equalities over related user types, quantifiers over T/S/U/E) "
         "extended with fluents over a bounded integer parameter (h, hb); 38% built around a quantifier whose variable is used "
@@ -27,12 +27,30 @@ RULE = ("one case = (expression, ordered map of (key, value, verdict of key.type
         "expression (capture), 20% containing another key, 25% constants (grounding style); 13% of the maps get one value of a "
         "wrong type (malformed stream), 2% are empty. Planted: 4% a compound key whose interior cannot be rebuilt (D-C13a), 3% a "
         "simple key active under a binder whose value mentions the bound variable (F-C13-capture). Non-trivial = the map was "
-        "rejected, or the result differs from the input.")
+        "rejected, or the result differs from the input. "
+        "HISTORY = 2-5 calls run in order on the shared substituter of ONE environment (alternately through FNode.substitute and "
+        "env.substituter.substitute); the oracle is evaluated on every call (= the last call of each prefix), the model (the "
+        "stack-and-cache machine Dag.Env.run started fresh) answers every call. Steps: a fresh single case; an earlier call "
+        "repeated verbatim; an earlier expression with a new map; a new expression built from 1-2 Boolean sub-terms of earlier "
+        "expressions (as it is, negated, beside each other or beside fresh material, in either order), its map drawn with 60% "
+        "priority per pair over the keys of the earlier maps (other values); a call that PASSES the up-front type check and raises "
+        "half-way through the rebuild — a trap atom (hb(K) / h(K) in a comparison with K:int[0,10] or int[3,7] mapped to a "
+        "parameter/constant/sum whose interval overlaps K's but not the fluent parameter's int[0,5]; or a division whose divisor "
+        "key is mapped to 0), possibly negated or inside a connective, placed first (50%) or anywhere among sub-terms shared with "
+        "the history, which the walker rewrites and caches before it reaches the trap; 45% of the histories start with such a call, "
+        "25% of the later steps are one, and the step after one shares sub-terms with it with probability 0.7. Non-trivial history = "
+        "a call after the first is non-trivial and the history repeats a call, or follows a failed walk, or rewrites a shared "
+        "sub-term (outside quantifier bodies) differently in two calls.")
 ASSUMPTIONS = ["keys and values are FNodes of the expression's environment (auto_promote of Python constants/Fluent objects is not exercised)",
                "the map is a dict: keys are pairwise distinct",
-               "the property presupposes that its result exists: cases whose top-down result contains a node the library's type "
-               "checker rejects (interval types are compatible when they overlap, which is not transitive; float overflow in the "
-               "checker's bound arithmetic, D-C15c) are not generated — typing is C15's subject",
+               "the property presupposes that its result exists: of a call whose top-down result contains a node the library's type "
+               "checker rejects (interval types are compatible when they overlap, which is not transitive; division by the constant "
+               "0; float overflow in the checker's bound arithmetic, D-C15c) nothing is demanded but that it raises. Such calls are "
+               "not generated as single cases; inside histories they ARE made (they are how the shared substituter is left "
+               "half-way): the nodes the real expression manager refuses are measured on a scratch environment and given to the "
+               "model as an input table, like the is_compatible verdicts — typing is C15's subject",
+               "histories keep out of the territory of the open finding F-C13-capture (no call of a history has a value with a "
+               "free variable bound over an active occurrence of its key): every failure in a history is reported",
                "the expression with each key replaced is read modulo the expression manager's constructors, through which every "
                "rebuilt node goes (And/Or/Plus/Times of 0/1 arguments, double negation): the oracle compares normal forms, the "
                "correspondence compares the exact output",
@@ -42,8 +60,12 @@ ASSUMPTIONS = ["keys and values are FNodes of the expression's environment (auto
                "objects are identified by name (one declared type per name); parameters by name (one type per name)"]
 MODELLED = ["modelled by hand (tied by correspondence): Substituter.substitute/_push_with_children_to_stack/walk_replace_or_identity, "
             "IdentityDagWalker.walk_* with the ExpressionManager n-ary/Not normalisations, FreeVarsOracle; dict as duplicate-free "
-            "association list; the DagWalker stack/memo machine as the pure recursion it computes (C14 models the machine); "
-            "is_compatible verdicts are inputs of the model (C15 models typing)"]
+            "association list; for single calls the DagWalker stack/memo machine as the pure recursion it computes, for histories "
+            "the machine itself (Core/DagWalker.lean, shared with C14: walk/iter_walk/_process_stack, the one-time cache keyed by "
+            "the node only, the try/finally of walk, Substituter's _push_with_children_to_stack with a new Substituter for "
+            "quantifier bodies, the pre-check of substitute) run over the whole history; is_compatible verdicts and the set of "
+            "nodes create_node refuses are inputs of the model (C15 models typing)"]
+EXTRA_PROPS = ["UPVerif.Props.C13History"]
 BUDGET_S = {"quick": 45, "thorough": 500}
 
 TYPES = [list(t) for t in ExprGen.TYPES]
@@ -354,7 +376,17 @@ def make_case(rng, g):
         e = [rng.choice(["and", "or"]), e, q[2]] if rng.random() < 0.5 else [rng.choice(["and", "or"]), q[2], e]
     if qs and rng.random() < 0.15:
         e = rename_shadow(e, rng)
+    pairs = make_pairs(rng, g, e)
+    if pairs is None:
+        return None
+    return e, pairs
+
+
+def make_pairs(rng, g, e, prefer=(), c=None):
+    """an ordered map for `e` (see RULE); `prefer`: keys of earlier calls of a history, drawn with priority so that
+    consecutive calls rewrite shared sub-terms differently.  Returns None when no pair could be made."""
     subs = list(subterms(e))
+    qs = [t for t, _ in subs if t[0] in QUANT]
     bound_all = []
     for t, _ in subs:
         if t[0] in QUANT:
@@ -364,15 +396,19 @@ def make_case(rng, g):
     atoms = [t for t, _ in subs if t[0] in ("fl", "p", "v")]
     compound = [t for t, _ in subs if t[0] not in LEAVES]
     npairs = rng.choice([1, 1, 1, 2, 2, 2, 3, 3, 4]) if rng.random() > 0.02 else 0
-    c = Ctx(TYPES)
+    if c is None:
+        c = Ctx(TYPES)
     c.expr(e)
     pairs = []
     malformed = rng.random() < 0.13
     bad_at = rng.randrange(max(npairs, 1))
+    prefer = [k for k in prefer if any(t == k for t, _ in subs)]
     for i in range(npairs):
         r = rng.random()
         k = None
-        if r < 0.1 and qs:
+        if prefer and rng.random() < 0.6:
+            k = rng.choice(prefer)
+        elif r < 0.1 and qs:
             k = rng.choice(qs)
         elif r < 0.38 and atoms:
             k = rng.choice(atoms)
@@ -429,7 +465,227 @@ def make_case(rng, g):
         pairs.append((k, v))
     if npairs > 0 and not pairs:
         return None
-    return e, pairs
+    return pairs
+
+
+# ---------------------------------------------------------------------------------------------------
+# histories: several calls on the shared substituter of ONE environment
+# ---------------------------------------------------------------------------------------------------
+
+PM = ["p", "pm", ["int", "3", "7"]]
+PN = ["p", "pn", ["int", "6", "9"]]
+BOOL_HEADS = ("and", "or", "not", "implies", "iff", "le", "lt", "eq", "exists", "forall", "b")
+
+
+def is_bool(e):
+    return e[0] in BOOL_HEADS or (e[0] == "fl" and e[1][1] == "bool") or (e[0] == "p" and e[2] == "bool")
+
+
+def outer_subterms(e):
+    """sub-terms not below a quantifier (quantifier bodies are walked by a Substituter of their own)"""
+    yield e
+    if e[0] not in QUANT:
+        for c in children(e):
+            yield from outer_subterms(c)
+
+
+class Refused(Exception):
+    def __init__(self, node):
+        Exception.__init__(self)
+        self.node = node
+
+
+def mk_node(e, cs):
+    """the node the expression manager's constructor returns for `e`'s operator on new children"""
+    h = e[0]
+    if h in ("and", "or", "plus", "times"):
+        if not cs:
+            return {"and": ["b", "T"], "or": ["b", "F"], "plus": ["i", "0"], "times": ["i", "1"]}[h]
+        if len(cs) == 1:
+            return cs[0]
+    if h == "not" and len(cs) == 1 and cs[0][0] == "not" and len(cs[0]) == 2:
+        return cs[0][1]
+    return with_children(e, cs)
+
+
+def measure_refused(c, e, pairs):
+    """Which node does the REAL expression manager (scratch context `c`) refuse when the top-down result is built
+    node by node, later-listed children first?  Raises Refused(node) at the first one; returns the result otherwise.
+    This measures an input table of the model (like the is_compatible verdicts): typing is C15's subject."""
+    for k, v in pairs:
+        if k == e:
+            return v
+    h = e[0]
+    if h in LEAVES:
+        return e
+    if h in QUANT:
+        b = bound_of(e)
+        kept = [(k, v) for k, v in pairs if not (free_vars(k) & b)]
+        n = [h, e[1], measure_refused(c, e[2], kept) if kept else e[2]]
+    else:
+        cs = [measure_refused(c, ch, pairs) for ch in reversed(children(e))][::-1]
+        n = mk_node(e, cs)
+    try:
+        c.expr(n)
+    except Exception:
+        raise Refused(n)
+    return n
+
+
+def trap(rng, g):
+    """(Boolean atom, key, value): the pair passes the up-front test `key.type.is_compatible(value.type)`, but the node
+    around the key cannot be rebuilt with the value in the key's place"""
+    r = rng.random()
+    if r < 0.7:     # integer intervals are compatible when they overlap, which is not transitive
+        key, vals = rng.choice([(XB, [PK, PN, ["i", "9"], ["i", "6"], ["plus", XB, ["i", "6"]]]),
+                                (PM, [PN, ["i", "6"], ["i", "7"]])])
+        if rng.random() < 0.5:
+            return ["fl", HB, key], key, rng.choice(vals)
+        op = rng.choice(["le", "lt", "eq"])
+        a, b = ["fl", H, key], g.num(rng.choice([0, 0, 1]), real_ok=False)
+        return ([op, a, b] if rng.random() < 0.6 else [op, b, a]), key, rng.choice(vals)
+    # a divisor that becomes the constant 0
+    key = rng.choice([["fl", ["x", INT, []]], ["fl", ["y", INT, []]], ["p", "pj", INT]])
+    d = ["div", g.num(rng.choice([0, 1]), real_ok=False), key]
+    if rng.random() < 0.3:
+        d = ["plus", d, g.num(0)]
+    return [rng.choice(["le", "lt"]), d, g.num(0)], key, ["i", "0"]
+
+
+def shared_terms(rng, prev, n):
+    """up to n Boolean sub-terms of earlier expressions of the history (compound ones preferred)"""
+    cands = []
+    for e in prev:
+        for t in outer_subterms(e):
+            if is_bool(t) and t[0] != "b" and t not in cands:
+                cands.append(t)
+    comp = [t for t in cands if t[0] not in LEAVES and t[0] != "fl"]
+    out = []
+    for _ in range(n):
+        pool = comp if comp and rng.random() < 0.7 else cands
+        if pool:
+            out.append(rng.choice(pool))
+    return out
+
+
+def sharing_expr(rng, g, prev):
+    """an expression that shares sub-terms with earlier expressions of the history"""
+    ts = shared_terms(rng, prev, rng.choice([1, 1, 2]))
+    if not ts:
+        return g.boolean(2)
+    r = rng.random()
+    t = ts[0]
+    if r < 0.15:
+        return t
+    if r < 0.3:
+        return ["not", t]
+    op = rng.choice(["and", "or"])
+    if len(ts) == 2 and r < 0.55:
+        args = [ts[0], ts[1]] + ([g.boolean(1)] if rng.random() < 0.4 else [])
+    else:
+        args = [t, g.boolean(rng.choice([0, 1, 2]))]
+    rng.shuffle(args)
+    if r > 0.9 and len(args) == 2:
+        return [rng.choice(["implies", "iff"])] + args
+    return [op] + args
+
+
+def failing_expr(rng, g, prev):
+    """an expression with a trap among sub-terms shared with the history; the walker visits later-listed children first,
+    so whatever stands to the right of the trap has been rewritten (and cached) when the trap raises"""
+    t, key, bad = trap(rng, g)
+    r = rng.random()
+    if r < 0.2:
+        t = ["not", t]
+    elif r < 0.35:
+        t = [rng.choice(["and", "or"]), t, g.boolean(0)] if rng.random() < 0.5 else [rng.choice(["and", "or"]), g.boolean(0), t]
+    others = shared_terms(rng, prev, rng.choice([1, 1, 2])) if prev else []
+    while len(others) < 1 or (len(others) < 3 and rng.random() < 0.35):
+        others.append(g.boolean(rng.choice([1, 1, 2])))
+    pos = 0 if rng.random() < 0.5 else rng.randrange(len(others) + 1)
+    args = others[:pos] + [t] + others[pos:]
+    if len(args) == 2 and rng.random() < 0.2:
+        return [rng.choice(["implies", "iff"])] + args, key, bad
+    return [rng.choice(["and", "or"])] + args, key, bad
+
+
+def make_history(rng, g):
+    """[(e, pairs)]: 2-5 calls on one environment.  Kinds of step: a fresh case; the same call again; the same expression
+    with a new map; a new expression sharing sub-terms with earlier ones, its map drawn with priority over the keys of the
+    earlier maps (other values); a call that passes the type check of its map and raises half-way through the rebuild."""
+    n = rng.choice([2, 2, 3, 3, 4, 5])
+    c = Ctx(TYPES)
+    calls, keys = [], []
+    after_fail = False
+    for i in range(n):
+        prev = [e for e, _ in calls]
+        if not calls:
+            kind = "fail" if rng.random() < 0.45 else "fresh"
+        elif after_fail:
+            kind = rng.choices(["share-last", "newmap", "fresh", "fail", "repeat"], [70, 10, 8, 7, 5])[0]
+        else:
+            kind = rng.choices(["share", "fail", "newmap", "repeat", "fresh"], [40, 25, 15, 10, 10])[0]
+        made = None
+        if kind == "fail":
+            e, key, bad = failing_expr(rng, g, prev)
+            ps = make_pairs(rng, g, e, prefer=keys, c=c) or []
+            ps = [(k, v) for k, v in ps if k != key]
+            ps.insert(rng.randrange(len(ps) + 1), (key, bad))
+            made = (e, ps)
+        elif kind == "fresh":
+            made = make_case(rng, g)
+        elif kind == "repeat":
+            made = rng.choice(calls)
+        else:
+            if kind == "newmap":
+                e = rng.choice(prev)
+            else:
+                e = sharing_expr(rng, g, prev[-1:] if kind == "share-last" else prev[-2:] if rng.random() < 0.7 else prev)
+            ps = make_pairs(rng, g, e, prefer=keys, c=c)
+            made = None if ps is None else (e, ps)
+        if made is None or captures(made[0], made[1]):
+            continue
+        calls.append(made)
+        after_fail = kind == "fail"
+        for k, _ in made[1]:
+            if k not in keys and k[0] in ("fl", "p", "v", "not", "le", "lt", "eq", "and", "or"):
+                keys.append(k)
+    return calls if len(calls) >= 2 else None
+
+
+def hist_payload(calls):
+    """payload for a history; None when an input cannot be built, keys repeat, or a call is in the territory of the open
+    finding F-C13-capture (single cases cover it; here every failure must be attributable to the history)"""
+    c = Ctx(TYPES)
+    rej, out = [], []
+    for e, pairs in calls:
+        if captures(e, pairs) or len(set(K(k) for k, _ in pairs)) != len(pairs):
+            return None
+        try:
+            c.expr(e)
+            vs, allok = [], True
+            for k, v in pairs:
+                ok = c.expr(k).type.is_compatible(c.expr(v).type)
+                allok = allok and ok
+                vs.append([k, v, "T" if ok else "F"])
+        except Exception:
+            return None
+        if allok and pairs:
+            try:
+                measure_refused(c, e, pairs)
+            except Refused as r:
+                if r.node not in rej:
+                    rej.append(r.node)
+        out.append(["subst", e, vs])
+    return ["hist", ["reject"] + rej] + out
+
+
+def is_hist(payload):
+    return payload[0] == "hist"
+
+
+def calls_of(payload):
+    return [(c[1], [(k, v) for k, v, _ in c[2]]) for c in payload[2:]]
 
 
 def with_verdicts(e, pairs):
@@ -451,19 +707,27 @@ def with_verdicts(e, pairs):
 
 
 def cases(rng, tier):
-    n = 1500 if tier == "quick" else 12000
+    """every 5th case is a history (its own random stream, so that the single-call stream does not depend on it)"""
+    n = 1300 if tier == "quick" else 12000
+    hrng = random.Random(rng.getrandbits(64))
     produced = 0
     attempts = 0
     while produced < n and attempts < 4 * n:
         attempts += 1
-        g = Gen13(rng, big=rng.random() < 0.5)
-        try:
-            made = make_case(rng, g)
-        except Exception:
-            made = None   # an expression of the shared grammar the real constructors reject (huge constants: D-C15c)
-        if made is None:
-            continue
-        p = with_verdicts(*made)
+        if produced % 5 == 4:
+            g = Gen13(hrng, big=hrng.random() < 0.25)
+            try:
+                made = make_history(hrng, g)
+            except Exception:
+                made = None
+            p = None if made is None else hist_payload(made)
+        else:
+            g = Gen13(rng, big=rng.random() < 0.5)
+            try:
+                made = make_case(rng, g)
+            except Exception:
+                made = None   # an expression of the shared grammar the real constructors reject (huge constants: D-C15c)
+            p = None if made is None else with_verdicts(*made)
         if p is None:
             continue
         produced += 1
@@ -477,20 +741,24 @@ def cases(rng, tier):
 REJECT_MSG = "is not compatible with the given substitution"
 
 
-def run_real(payload):
-    """-> (ctx, e, dict, outcome) with outcome ('ok', fnode) | ('reject', clean?) | ('error', name)"""
-    c = Ctx(TYPES)
+def run_real(payload, c=None, via_node=True):
+    """One call, on a fresh environment or (history) on the environment of `c`, through FNode.substitute or through
+    env.substituter.substitute (the same shared object).
+    -> (ctx, e, dict, outcome) with outcome ('ok', fnode) | ('reject', clean?) | ('error', name)"""
+    if c is None:
+        c = Ctx(TYPES)
     e = c.expr(payload[1])
     d = {}
     for k, v, _ in payload[2]:
         d[c.expr(k)] = c.expr(v)
     sub = c.env.substituter
-    before = len(c.em.expressions)
+    before = (len(c.em.expressions), list(sub.stack), dict(sub.memoization))
     try:
-        r = e.substitute(d)
+        r = e.substitute(d) if via_node else sub.substitute(e, d)
     except UPTypeError as ex:
         if REJECT_MSG in str(ex):
-            clean = (not sub.stack) and (not sub.memoization) and len(c.em.expressions) == before
+            # "rejected before anything changes": the shared walker and the expression table are as they were
+            clean = before == (len(c.em.expressions), list(sub.stack), dict(sub.memoization))
             return c, e, d, ("reject", clean)
         return c, e, d, ("error", "UPTypeError-in-walk")
     except Exception as ex:
@@ -498,13 +766,35 @@ def run_real(payload):
     return c, e, d, ("ok", r)
 
 
-def impl(payload):
-    _, _, _, out = run_real(payload)
+WALK_RAISES = ("UPTypeError-in-walk", "ZeroDivisionError", "OverflowError")   # what create_node's type check raises
+
+
+def run_hist(payload):
+    """all calls of a history in order on ONE environment -> (ctx, [(e, dict, outcome)])"""
+    c = Ctx(TYPES)
+    res = []
+    for i, call in enumerate(payload[2:]):
+        _, e, d, out = run_real(call, c=c, via_node=(i % 2 == 0))
+        res.append((e, d, out))
+    return c, res
+
+
+def ans_of(out, in_history=False):
     if out[0] == "ok":
         return ["ok", enc_expr(out[1])]
     if out[0] == "reject":
         return "reject" if out[1] else ["reject", "dirty"]
+    if in_history and out[1] in WALK_RAISES:
+        return "undefined"
     return ["error", out[1]]
+
+
+def impl(payload):
+    if is_hist(payload):
+        _, res = run_hist(payload)
+        return ["hist"] + [ans_of(out, True) for _, _, out in res]
+    _, _, _, out = run_real(payload)
+    return ans_of(out)
 
 
 def pairs_of(payload):
@@ -512,12 +802,51 @@ def pairs_of(payload):
 
 
 def nontrivial(payload, ans):
+    if is_hist(payload):
+        # a later call of the history does something, and the history gives it something to be confused by
+        later = any(nontrivial(c, a) for c, a in list(zip(payload[2:], ans[1:]))[1:])
+        return later and bool(set(hist_tags(payload, ans)) & {"hist-shared-subterm-rewritten-differently", "hist-call-repeated",
+                                                               "hist-call-after-failed-walk"})
     if ans == "reject":
         return True
     return isinstance(ans, list) and ans[0] == "ok" and ans[1] != payload[1]
 
 
+def hist_tags(payload, ans):
+    calls = calls_of(payload)
+    t = ["history", f"hist-calls={len(calls)}"]
+    answers = ans[1:] if isinstance(ans, list) else []
+    failed = [i for i, a in enumerate(answers) if a == "undefined"]
+    if failed:
+        t.append("hist-has-failed-walk")
+    if any(a == "reject" for a in answers):
+        t.append("hist-has-rejected-map")
+    if any(i + 1 < len(answers) for i in failed):
+        t.append("hist-call-after-failed-walk")
+    if any(calls[i] == calls[j] for i in range(len(calls)) for j in range(i)):
+        t.append("hist-call-repeated")
+    outer = [[x for x in outer_subterms(e)] for e, _ in calls]
+    diff = stale = False
+    for j in range(1, len(calls)):
+        for i in range(j):
+            if not calls[i][1] or not calls[j][1]:
+                continue
+            for x in outer[i]:
+                if x[0] not in ("b", "i", "r", "o") and x in outer[j] and ref_subst(x, calls[i][1]) != ref_subst(x, calls[j][1]):
+                    diff = True
+                    if i in failed and all(answers[m] in ("undefined", "reject") for m in range(i, j)):
+                        stale = True
+                    break
+    if diff:
+        t.append("hist-shared-subterm-rewritten-differently")
+    if stale:
+        t.append("hist-shared-subterm-rewritten-differently-right-after-failed-walk")
+    return t
+
+
 def stats(payload, ans):
+    if is_hist(payload):
+        return hist_tags(payload, ans)
     e, pairs = payload[1], pairs_of(payload)
     t = [f"pairs={min(len(pairs), 4)}"]
     if ans == "reject":
@@ -624,12 +953,29 @@ def semantic_check(e, pairs, result, rng):
 
 
 def oracle(payload):
-    e, pairs = payload[1], pairs_of(payload)
+    """The property on the real code.  For a history: the property is a statement about the result of a call, so it is
+    evaluated on every call of the history as run, in order, on ONE environment (each call is the last call of a prefix)."""
     rng = random.Random(int(hashlib.sha1(K(payload).encode()).hexdigest()[:8], 16))
+    if is_hist(payload):
+        try:
+            _, res = run_hist(payload)
+        except Exception:
+            return None
+        n = len(res)
+        for i, ((fe, d, out), (e, pairs)) in enumerate(zip(res, calls_of(payload))):
+            v = oracle_call(e, pairs, fe, d, out, rng)
+            if v:
+                return f"call {i + 1} of {n} on one environment: {v}"
+        return None
     try:
         c, fe, d, out = run_real(payload)
     except Exception:
         return None     # the inputs themselves are rejected by the real constructors: not a case of this property
+    return oracle_call(payload[1], pairs_of(payload), fe, d, out, rng)
+
+
+def oracle_call(e, pairs, fe, d, out, rng):
+    """the property's clauses for ONE call: `fe.substitute(d)` had the outcome `out`"""
     if len(d) != len(pairs):
         return None
     compat = [k.type.is_compatible(v.type) for k, v in d.items()]
@@ -659,12 +1005,41 @@ def oracle(payload):
 
 
 def known_cause(payload):
+    if is_hist(payload):
+        return None     # histories keep out of the finding's territory (hist_payload)
     if captures(payload[1], pairs_of(payload)):
         return "F-C13-capture"
     return None
 
 
+def shrink_hist(payload):
+    calls = calls_of(payload)
+    cands = []
+    for i in range(len(calls)):
+        if len(calls) > 1:
+            cands.append(calls[:i] + calls[i + 1:])
+    for i, (e, pairs) in enumerate(calls):
+        for j in range(len(pairs)):
+            cands.append(calls[:i] + [(e, pairs[:j] + pairs[j + 1:])] + calls[i + 1:])
+        for ch in children(e):
+            if is_bool(ch) == is_bool(e):
+                cands.append(calls[:i] + [(ch, pairs)] + calls[i + 1:])
+        if e[0] in ("and", "or", "plus", "times") and len(e) > 3:
+            for j in range(1, len(e)):
+                cands.append(calls[:i] + [(e[:j] + e[j + 1:], pairs)] + calls[i + 1:])
+        for j, (k, v) in enumerate(pairs):
+            for ch in children(v):
+                cands.append(calls[:i] + [(e, pairs[:j] + [(k, ch)] + pairs[j + 1:])] + calls[i + 1:])
+    for cs in cands:
+        p = hist_payload(cs)
+        if p is not None:
+            yield p
+
+
 def shrink(payload):
+    if is_hist(payload):
+        yield from shrink_hist(payload)
+        return
     e, pairs = payload[1], pairs_of(payload)
     cands = []
     for i in range(len(pairs)):
@@ -694,8 +1069,14 @@ MANIFEST = {
                    "inserted verbatim), rejects before walking iff some pair is incompatible, and — for maps whose keys are parameters, "
                    "variables or fluent applications with constant arguments, under the stated decidable side conditions and in the "
                    "absence of variable capture — the result denotes what the original denotes under the interpretation updated by "
-                   "the map. The capture case is a known finding (kernel-checked counterexample). The model is tied to the code by a "
-                   "differential correspondence on the exact produced expression plus a direct oracle of the property on the real class."),
+                   "the map. The capture case is a known finding (kernel-checked counterexample). Props/C13History.lean "
+                   "states the same clauses for the last call of ANY history of calls on the environment's shared substituter, run on the "
+                   "model of the stack-and-cache machine (earlier calls may have returned, been rejected, or raised half-way at a node "
+                   "the expression manager refuses): the answer is the one computed from the call's own arguments, a rejected map leaves "
+                   "the machine exactly as it was, and the machine that clears its cache only after successful walks is refuted on a "
+                   "kernel-checked two-call history. The model is tied to the code by a "
+                   "differential correspondence on the exact produced expression (single calls on fresh environments and histories of "
+                   "calls on one environment) plus a direct oracle of the property on the real class, evaluated on every call."),
     "level_note": ("Partial: semantic clause proved only without capture of free variables of values (open finding F-C13-capture). "
                    "Trusted: Lean kernel; axioms propext, Classical.choice, Quot.sound; the correspondence harness. Modelled not "
                    "verified: dict semantics, the DagWalker machine (C14), typing of rebuilt nodes and is_compatible (C15)."),
